@@ -4,6 +4,7 @@ import (
 	"encoding/json"
 	"os"
 
+	api "github.com/xinchentechnote/fin-protoc/verifapi"
 	"verif/engine/internal/core"
 	"verif/engine/internal/dsl"
 )
@@ -42,3 +43,10 @@ func replayText(ctx *core.Ctx, f func(*core.Ctx, Text)) int {
 
 // Worker is the subprocess entry point (inputs on stdin, one JSON verdict per line).
 func Worker() {}
+
+// parseText runs the real parser.ParseFile on text (through a scratch file, removed afterwards).
+func parseText(ctx *core.Ctx, text string) (*api.Model, []api.Diag, error) {
+	p := ctx.TempPath(".dsl")
+	defer os.Remove(p)
+	return api.ParseText(p, text)
+}
